@@ -41,7 +41,7 @@ BASE_T0 = 0x03A0000000000000     # tids of a demo storage's base
 NEXT_OID = 900                   # oid written by the "next transaction" probe
 FOREIGN = 999999                 # model id of the foreign transaction
 TIMEOUT = 8.0
-STEP_TIMEOUT = 25.0              # a whole scenario / commit step that does not return within this bound is blocked
+STEP_TIMEOUT = 15.0              # a whole scenario / commit step that does not return within this bound is blocked
 KINDS = ['file', 'fileblob', 'mapping', 'blobmapping', 'demofile', 'demomapping', 'blobfile']
 
 
@@ -804,7 +804,7 @@ class Runner:
 
     def scenario(self, env, victim, failure):
         fk = failure['kind']
-        label = fk + (':' + str(failure.get('variant') or failure.get('which') or failure.get('phase') or '')
+        label = fk + (':%s' % failure.get('variant', failure.get('which', failure.get('phase', '')))
                       if fk in ('abortfault', 'meta', 'foreign') else '')
         r = self.guarded(env, label, lambda: self._scenario(env, victim, failure))
         return r if r is not None else []
@@ -1689,7 +1689,15 @@ def main(argv=None):
         with multiprocessing.get_context('fork').Pool(min(14, os.cpu_count() or 2)) as pool:
             results = pool.map(_work, jobs, chunksize=1)
     else:
-        results = [_work(j) for j in jobs]
+        results, nblocked = [], 0
+        for j in jobs:
+            if nblocked >= 2:
+                ck.count('case-skipped-after-blocked-steps')     # keep the run short: the verdict is clear
+                continue
+            res = _work(j)
+            results.append(res)
+            if any(v[0].startswith('C05:step-blocked') for v in res.get('violations', [])):
+                nblocked += 1
 
     class R:
         pass
@@ -1715,7 +1723,9 @@ def main(argv=None):
             sig, what, at = r.violations[0]
             steps = r.executed[:at + 1]
             kind, quota, base = case['kind'], case.get('quota'), case.get('base')
-            if sig.startswith('C05:step-blocked'):
+            if ck.violations:
+                small = steps               # only the first violation is shrunk (it is the one reported)
+            elif sig.startswith('C05:step-blocked'):
                 # every failing replay costs the full step timeout: try the two obvious reductions only
                 small = steps
                 for cand in (steps[-1:], [x for x in steps[:-1] if x['type'] == 'commit'] + steps[-1:]):
